@@ -15,6 +15,12 @@ NA = {
 }
 
 CHECKS = {
+    "C10": dict(
+        text="Seeded search over load histories with twin worlds: (1) the stateful condensed nearly-incompressible body vs the explicit (u,p,J) formulation with cell-wise constant duals (3D, plane strain, axisymmetric; distorted meshes; bulk/shear 5..5000; exact and inexact solves) compared at every converged substep in u and at the settled end state in p and J, plus a restart that drops the condensed state; (2) the uniform-grid fast path as a flipped knob: same history with uniform=True/False, assembled vectors/matrices compared at identical iterates and all converged states compared. Sampled-only twins at the reached states: plane strain vs unit-thickness slab (forces and stiffness), axisymmetric forces vs central differences of the 2 pi R weighted energy. Sampling, not proof; convergence of the axisymmetric model to a revolved 3D model is not attempted.",
+        note="Trusted: numpy/scipy, converged-state tolerance 2e-5 relative scaled with the Newton tolerance. Real: both formulations, regions, fields, assembly, Newton. Simulated: the twin histories, restart (state loss), solver inexactness, the uniform knob.",
+        technique="deterministic simulation with twin worlds (refinement between condensed/explicit and fast-path/general formulations along identical histories), restart with state loss, inexact-solver faults",
+        ref="DESIGN.md section 7 (C10)",
+    ),
     "C09": dict(
         text="Seeded search over job histories of homogeneous problems: displacement patch tests (affine map on the whole boundary) and the uniaxial / biaxial load cases on every generated element family (hex 8/20/27, quad 4/8/9, tri 3/6, tet 4/10), mesh densities, interior distortion (curved edges in 2D), 3D and plane strain, nine hyperelastic material variants incl. the nearly-incompressible body, seeded ramp subdivisions (uniform, non-uniform, repeated, cyclic, load-unload), twin jobs with another subdivision, exact or inexact (1e-12..1e-3) linear solves. At every converged substep the displacement field is compared with the affine map, F with uniformity, job.x with the ramp, job.y with analytic P11*A0 from independently coded energy functions; recorded history must stay immutable. Sampling, not proof.",
         note="Trusted: the analytic model in fesim/refmodel.py (energies coded from textbook forms, stresses by central differences of the energy, lateral stretch by bracketing root search), numpy/scipy. Real: Job/CharacteristicCurve/Step/Newton/regions/elements/materials. Simulated: solver inexactness, ramp subdivision histories. Tolerances are converged-state tolerances scaled with the Newton tolerance.",
